@@ -256,13 +256,17 @@ class Ctx:
 
     def finish(self):
         for name, arr, orig in self.tracked:
+            changed = False
             for idx in _np.ndindex(*orig.shape):
                 new, old = arr[idx], orig[idx]
                 if new is old:
                     continue
                 if isnum(new) and isnum(old) and new == old:
                     continue
+                changed = True
                 self.goals.append((f"frame:{name}", toz(new) == toz(old), 'frame'))
+            if not changed:
+                self.goals.append((f"frame:{name}", z3.BoolVal(True), 'frame'))
 
     def known_region(self, kf_id, cond):
         """exclude the region of a finding listed (open) in known_findings.json; a no-op otherwise"""
@@ -666,5 +670,6 @@ def run_unit(unit, tier='quick'):
         else:
             res['status'] = 'vacuous'
     res['obligations'] = agg
+    res['input_names'] = list(ctx.inputs.keys())
     res['wall_s'] = time.time() - t0
     return res
